@@ -77,7 +77,7 @@ CHECKS = {
             "Checksum-forging inputs are not generated; damage to already-applied log files and to the anchor record of a non-last file is the recorded known finding.",
             "DESIGN.md 4 C13", "pdbv"),
     "C16": ("fault_enumeration",
-            "fault enumeration: every file-operation index of every pipeline step of generated histories fails (and keeps failing) via the library's injector; oracle: error reported by the failing call, no panic incl. drop, reads == model of all commits, restart recovers a prefix >= synced and accepts commits; plus a threaded part under shuttle: real worker loops, fault from the n-th file operation of ANY worker on, x seeded schedules",
+            "fault enumeration: every file-operation index of every pipeline step of generated histories fails (and keeps failing) via the library's injector; oracle: error reported by the failing call, no panic incl. drop, reads == model of all commits, restart recovers a prefix >= synced and accepts commits; plus a threaded part under shuttle: real worker loops, fault from the n-th file operation of ANY worker on, x seeded schedules; plus real OS threads with EIO returned by interposed syscalls (write, fdatasync, fsync, msync, ftruncate, unlink, mmap) from a generated call count on",
             "All fault positions inside each op of each generated history (sampled above a cap); differs from C02 in that the handle survives the fault, must keep serving reads, must report the error, and the SAME directory is reopened after the fault is gone.",
             "Injector = the library's try_io! sites on the calling thread (stepping mode); reads are issued with the injector paused.",
             "DESIGN.md 4 C16", "pdbv"),
